@@ -134,3 +134,18 @@ def orders_strategy():
     from hypothesis import strategies as st
 
     return st.lists(st.sampled_from(ORDERS), min_size=1, max_size=4)
+
+
+def present(a, how):
+    """Hand a 1-D numpy array to verde as another container holding the same element sequence:
+    'array' (as is), 'series' (pandas Series), 'series_rev' (Series with a reversed, non-default index), 'list'."""
+    if how in (None, "array") or np.ndim(a) != 1:
+        return a
+    if how == "series":
+        return pd.Series(np.asarray(a))
+    if how == "series_rev":
+        return pd.Series(np.asarray(a), index=np.arange(len(a))[::-1])
+    raise ValueError(how)
+
+
+CONTAINERS = ["array", "array", "array", "series", "series_rev"]
